@@ -418,22 +418,32 @@ def defaultFormatS : Fmt := { defaultFormatP with alt := true, orig := ['%', '#'
 
 /-! ### the scalar kinds -/
 
-/-- `strconv.FormatInt` digits / sign split of the hand-written branch -/
-def intPbB (f : Fmt) (i : Int) : Str :=
-  let c := f.letter
-  let radix := if c = 'b' || c = 'B' then 2 else 10
-  let neg := decide (i < 0)
-  let sign : Str := if neg && c ≠ 'p' then ['-'] else []
-  let intString : Str := (if neg && c = 'p' then ['-'] else []) ++ natStr radix false i.natAbs
-  let totWidth := f.width.getD 0
+/-- hand-written `p b B` branch: the sign that is written in front of the radix prefix (binary only; the decimal
+    program form keeps its sign with the digits) -/
+def pbbSign (f : Fmt) (i : Int) : Str := if decide (i < 0) && f.letter ≠ 'p' then ['-'] else []
+
+/-- … `intString`: strconv.FormatInt without the separated sign; `%.Np` cuts the text to N characters -/
+def pbbDigits (f : Fmt) (i : Int) : Str :=
+  let radix := if f.letter = 'b' || f.letter = 'B' then 2 else 10
+  let intString : Str := (if decide (i < 0) && f.letter = 'p' then ['-'] else []) ++ natStr radix false i.natAbs
   let numWidth := f.prec.getD 0
-  let intString := if numWidth > 0 && numWidth < intString.length && c = 'p' then intString.take numWidth else intString
-  let zeroPad := numWidth - intString.length
-  let pfx : Str := if f.alt && i ≠ 0 then (if c = 'b' then ['0', 'b'] else if c = 'B' then ['0', 'B'] else []) else []
-  let computed := sign.length + pfx.length + max numWidth intString.length
-  let spacePad := totWidth - computed
+  if numWidth > 0 && numWidth < intString.length && f.letter = 'p' then intString.take numWidth else intString
+
+/-- … `pfx`: `integerPrefixRadix` with `#` for a value other than 0 -/
+def pbbPrefix (f : Fmt) (i : Int) : Str :=
+  if f.alt && i ≠ 0 then (if f.letter = 'b' then ['0', 'b'] else if f.letter = 'B' then ['0', 'B'] else []) else []
+
+/-- the hand-written `p b B` branch of `integerValue.ToString`: blanks to the width (on the right with `-`), sign,
+    prefix, zeros (blanks for `p`) to the precision, digits -/
+def intPbB (f : Fmt) (i : Int) : Str :=
+  let sign := pbbSign f i
+  let ds := pbbDigits f i
+  let pfx := pbbPrefix f i
+  let numWidth := f.prec.getD 0
+  let zeroPad := numWidth - ds.length
+  let spacePad := f.width.getD 0 - (sign.length + pfx.length + max numWidth ds.length)
   (if f.left then [] else spaces spacePad) ++ sign ++ pfx ++
-  (if c = 'p' then spaces zeroPad else zeros zeroPad) ++ intString ++ (if f.left then spaces spacePad else [])
+  (if f.letter = 'p' then spaces zeroPad else zeros zeroPad) ++ ds ++ (if f.left then spaces spacePad else [])
 
 /-- `rune(int64(iv))` written with WriteRune: the low 32 bits as a signed value; anything that is not a Unicode
     scalar value is written as U+FFFD -/
